@@ -292,6 +292,8 @@ def beh_selected(ctx, pid, m):
         return True
     if m['what'].startswith('Option<enum>'):
         return pid == 'C08'
+    if m['op'] == 'I':
+        return pid == 'C11'
     if m['op'] == 'R':
         return pid in ('C06', 'C16') or (pid == 'C11' and d['base'] not in D.NATIVE)
     if m['op'] == 'B':
